@@ -38,7 +38,12 @@ def load_known() -> list[dict]:
     if not os.path.exists(p):
         return []
     with open(p) as f:
-        return json.load(f)["findings"]
+        out = json.load(f)["findings"]
+    extra = os.environ.get("VERIF_EXTRA_KNOWN")  # development aid for builders; never set by registered commands
+    if extra and os.path.exists(extra):
+        with open(extra) as f:
+            out = out + json.load(f)
+    return out
 
 
 class Run:
